@@ -19,8 +19,10 @@ TLimit == Ev.op = "limit"
 TCLimit == Ev.op = "climit"
             /\ (LimitAccept(Ev.n) => (Ev.printed >= 1 /\ Ev.printed <= LimitValue(Ev.n, Ev.deflt)))
             /\ (~LimitAccept(Ev.n) => Ev.printed = 0)
+\* the command line searches (and records) exactly the queries the validator accepts for the joined arguments
+TCQuery == Ev.op = "cquery" /\ Ev.ok2 = Ev.ok
 TraceInit == l = 1
-TraceNext == l <= Len(Trace) /\ l' = l + 1 /\ (TQuery \/ TLimit \/ TCLimit)
+TraceNext == l <= Len(Trace) /\ l' = l + 1 /\ (TQuery \/ TLimit \/ TCLimit \/ TCQuery)
 TraceSpec == TraceInit /\ [][TraceNext]_l
 TraceAccepted ==
     LET d == TLCGet("stats").diameter IN
